@@ -15,7 +15,7 @@
     oncurve p a b <pt>            the check of Point.__init__ -> 0/1
   secp256k1 (S256Point):
     smul k <pt>                   k any integer (reduced mod N by the code)
-    sadd <pt> <pt> | saddint <pt> k | evenpoint <pt>
+    sadd <pt> <pt> | saddint <pt> k | evenpoint <pt>   (evenpoint inf -> REJECT: AttributeError in the code)
     mkpoint x y                   S256Point(x, y): range + curve check -> point or REJECT
     sec <pt> c                    c = 1 compressed, 0 uncompressed -> bytes (REJECT for inf)
     xonly <pt>                    -> bytes
@@ -90,7 +90,8 @@ def handle : List String → String
       | _ => none
   | "evenpoint" :: rest => optS do
       let P ← parsePt1 rest
-      pure (fmtPt (evenPoint P))
+      -- S256Point(None, None) has no `parity` attribute: even_point raises AttributeError
+      pure (if P = .inf then REJECT else fmtPt (evenPoint P))
   | ["mkpoint", x, y] => optS do
       pure (orReject ((mkPoint (← parseNat x) (← parseNat y)).map fmtPt))
   | "sec" :: rest => optS do
